@@ -6,6 +6,7 @@ import GoZero.Base.Trace
 import GoZero.C16.Spec
 import GoZero.C16.DriverRW
 import GoZero.C16.DriverCache
+import GoZero.C16.ModelApi
 namespace GoZero.C16
 
 open GoZero
@@ -38,6 +39,13 @@ def runQueue (r : Report) (s : Section) : Report := Id.run do
   let mut q := Queue.new size
   let mut sp : Spec.Fifo := []
   let mut r := r
+  if kvInt s.cfg "size" 0 < 0 then
+    -- `NewQueue(negative)`: `make([]any, size)` panics, no queue exists (outside the property: size ≥ 1)
+    r := r.addCover "q-new-negative-panics"
+    for l in s.lines do
+      r := { r with ops := r.ops + 1 }
+      if joinSp l.obs ≠ "PANIC-new" then r := r.mismatch s.idx l.idx "PANIC-new" (joinSp l.obs)
+    return r
   for l in s.lines do
     r := { r with ops := r.ops + 1 }
     match l.op with
@@ -53,6 +61,7 @@ def runQueue (r : Report) (s : Section) : Report := Id.run do
           r := r.addCover (if q.head = q.tail ∧ q.count > 0 then
                              (if q.head = 0 then "q-put-grow-head0" else "q-put-grow-wrapped")
                            else if q.tail + 1 = q.elems.length then "q-put-wrap" else "q-put")
+          if x = 0 then r := r.addCover "q-put-nil"
           q := q.put x
           sp := (Spec.Fifo.step sp (.put x)).1
           r := judge r s l "ok" "ok"
@@ -60,6 +69,7 @@ def runQueue (r : Report) (s : Section) : Report := Id.run do
       let (o, q') := q.take
       let (sp', so) := Spec.Fifo.step sp .take
       r := r.addCover (if o.isNone then "q-take-empty" else if q.head + 1 = q.elems.length then "q-take-wrap" else "q-take")
+      if o = some 0 then r := r.addCover "q-take-nil-is-present"
       r := judge r s l (optS o) (match so with | .val v => optS v | _ => "?")
       q := q'
       sp := sp'
@@ -74,15 +84,19 @@ def runQueue (r : Report) (s : Section) : Report := Id.run do
 def runRing (r : Report) (s : Section) : Report := Id.run do
   let nI := kvInt s.cfg "n" 1
   let n := nI.toNat
-  let mut rg := Ring.new n
   let mut hist : Array Nat := #[]
   let mut r := r
-  if nI < 1 then
+  -- the constructor as a function of ANY integer argument (`Ring.newApi`, `ring_api_keeps_last_n`)
+  let mut rg := (Ring.newApi nI).getD (Ring.new 0)
+  if (Ring.newApi nI).isNone then
     -- `NewRing(n)` with n < 1 panics (`tie_newRingGuard`): no ring exists, outside the property (n ≥ 1)
     r := r.addCover "ring-new-panics"
     for l in s.lines do
       r := { r with ops := r.ops + 1 }
-      if joinSp l.obs ≠ "PANIC-new" then r := r.mismatch s.idx l.idx "PANIC-new" (joinSp l.obs)
+      if joinSp l.obs ≠ "PANIC-new" then
+        r := r.mismatch s.idx l.idx "PANIC-new" (joinSp l.obs)
+        -- a ring of n < 1 elements cannot keep "the last n elements": the only conforming behaviour is to refuse
+        r := r.violation s.idx l.idx s!"struct=ring NewRing({nI}) returned a ring (n < 1 must panic) op=[{joinSp l.op}] impl=[{joinSp l.obs}]"
     return r
   for l in s.lines do
     r := { r with ops := r.ops + 1 }
@@ -92,6 +106,7 @@ def runRing (r : Report) (s : Section) : Report := Id.run do
       | none => r := r.mismatch s.idx l.idx "bad-op" (joinSp l.op)
       | some x =>
         r := r.addCover (if rg.index + 1 ≥ 2 * n then "ring-add-foldback" else if rg.index ≥ n then "ring-add-overwrite" else "ring-add")
+        if x = 0 then r := r.addCover "ring-add-nil"
         rg := rg.add x
         hist := hist.push x
         r := judge r s l "ok" "ok"
@@ -99,6 +114,10 @@ def runRing (r : Report) (s : Section) : Report := Id.run do
       r := r.addCover (if rg.index > n then "ring-take-wrapped" else if rg.index = n then "ring-take-full" else "ring-take-partial")
       let m := joinSp (rg.take.map toString)
       let sp := joinSp ((Spec.lastN n hist.toList).map toString)
+      -- the harness keeps the slices earlier Takes returned: "keeps the last n elements" is about the moment of the
+      -- call, a later Add must not reach into a slice already handed out
+      if l.obs.contains "HELD-SLICE-CHANGED" then
+        r := r.violation s.idx l.idx s!"struct=ring op=[take] a slice returned by an earlier Take changed after later Adds (Take must return a fresh slice, not a view of the ring's buffer)"
       r := judge r s l m sp
     | _ => r := r.mismatch s.idx l.idx "bad-op" (joinSp l.op)
   return r
@@ -134,6 +153,7 @@ def runSet (r : Report) (s : Section) : Report := Id.run do
         r := r.addCover (if st.tp = tpUntyped ∧ knownType x.1 then "set-add-settype"
                          else if x ∈ st.data then "set-add-present"
                          else if st.tp ≠ tpUnmanaged ∧ st.tp ≠ tpUntyped ∧ st.mismatch x then "set-add-typemismatch" else "set-add")
+        if x.1 = 8 then r := r.addCover "set-add-nil"
         st := st.add x
         hist := .add x :: hist
         sp := if sp.contains x then sp else x :: sp
@@ -187,6 +207,17 @@ def runSafeMap (r : Report) (s : Section) : Report := Id.run do
   let mut m := SafeMap.init
   let mut sp : AL := []
   let mut r := r
+  -- `pre=n:d`: keys 0…n-1 preloaded (Set k (k+1)), then deletionOld poked to d (a reachable state, see the harness)
+  match (kvStr s.cfg "pre").splitOn ":" with
+  | [n, d] =>
+    match n.toNat?, d.toNat? with
+    | some n, some d =>
+      r := r.addCover "sm-preloaded"
+      -- the n Sets on the empty map, built directly (`SafeMap.set` with deletionOld = 0 conses the pair)
+      m := { m with old := (List.range n).reverse.map (fun k => (k, k + 1)), delOld := d }
+      sp := (List.range n).reverse.map fun k => (k, k + 1)
+    | _, _ => r := r.mismatch s.idx 0 "pre=<n>:<d>" (joinSp s.cfg)
+  | _ => pure ()
   for l in s.lines do
     r := { r with ops := r.ops + 1 }
     match l.op with
@@ -196,6 +227,7 @@ def runSafeMap (r : Report) (s : Section) : Report := Id.run do
       | some (k, v) =>
         r := r.addCover (if m.delOld ≤ maxDel then (if ahas m.new k then "sm-set-old-movefromnew" else "sm-set-old")
                          else (if ahas m.old k then "sm-set-new-movefromold" else "sm-set-new"))
+        if v = 0 then r := r.addCover "sm-set-nil"
         m := m.set maxDel k v
         sp := Spec.alStep sp (.set k v)
         r := judge r s l "ok" "ok"
@@ -216,6 +248,7 @@ def runSafeMap (r : Report) (s : Section) : Report := Id.run do
       | none => r := r.mismatch s.idx l.idx "bad-op" (joinSp l.op)
       | some k =>
         r := r.addCover (if ahas m.old k then "sm-get-old" else if ahas m.new k then "sm-get-new" else "sm-get-absent")
+        if m.get k = some 0 then r := r.addCover "sm-get-nil-is-present"
         r := judge r s l (optS (m.get k)) (optS (alookup sp k))
     | ["size"] =>
       r := r.addCover "sm-size"
@@ -223,6 +256,34 @@ def runSafeMap (r : Report) (s : Section) : Report := Id.run do
     | ["range"] =>
       r := r.addCover "sm-range"
       r := judge r s l (canonPairs m.range) (canonPairs sp)
+    | ["rangestop", j] =>
+      -- `Range(f)` with an `f` that answers false from its j-th call on (0 = never): `safemap_range_stops` —
+      -- f is called min(j, size) times, never twice with a key, only with pairs of the map.  The order of a Go map
+      -- iteration is random, so the pairs are compared with the spec map, the COUNT with the model.
+      -- `o+d`: d calls beyond the size of the old generation at this moment
+      match (if j.startsWith "o+" then (j.drop 2).toString.toNat?.map (m.old.length + ·) else j.toNat?) with
+      | none => r := r.mismatch s.idx l.idx "bad-op" (joinSp l.op)
+      | some j =>
+        let want := (m.rangeUntil j).length
+        let wantSpec := if j = 0 then sp.length else min j sp.length
+        r := r.addCover (if j = 0 then "sm-rangestop-never" else if j ≤ m.old.length then "sm-rangestop-in-old"
+                         else if j ≤ m.size then "sm-rangestop-in-new" else "sm-rangestop-beyond-size")
+        if j ≠ 0 ∧ j ≤ m.old.length ∧ m.new.length > 0 then r := r.addCover "sm-rangestop-in-old-new-nonempty"
+        let calls := kvNat l.obs "calls" 0
+        let pairs := (l.obs.drop 1).filterMap fun tok =>
+          match tok.splitOn ":" with
+          | [k, v] => (do pure ((← k.toNat?), (← v.toNat?)) : Option (Nat × Nat))
+          | _ => none
+        if l.obs.head? ≠ some s!"calls={calls}" ∨ pairs.length + 1 ≠ l.obs.length ∨ pairs.length ≠ calls then
+          r := r.mismatch s.idx l.idx s!"calls={want} <pairs>" (joinSp l.obs)
+        else
+          if calls ≠ want then r := r.mismatch s.idx l.idx s!"calls={want}" (joinSp l.obs)
+          if calls ≠ wantSpec then
+            r := r.violation s.idx l.idx s!"struct=safemap op=[{joinSp l.op}] Range called f {calls} times although f said stop at call {j}; size={sp.length}, want {wantSpec} calls"
+          if ¬ (pairs.map (·.1)).Nodup then
+            r := r.violation s.idx l.idx s!"struct=safemap op=[{joinSp l.op}] Range visited a key twice impl=[{joinSp l.obs}]"
+          if pairs.any fun (k, v) => alookup sp k ≠ some v then
+            r := r.violation s.idx l.idx s!"struct=safemap op=[{joinSp l.op}] Range visited a pair that is not in the map impl=[{joinSp l.obs}] map=[{canonPairs sp}]"
     | ["st"] =>
       -- white-box: generation counters and sizes (correspondence only)
       let ms := s!"{m.delOld} {m.delNew} {m.old.length} {m.new.length}"
@@ -270,7 +331,7 @@ def runMulti (r : Report) (s : Section) : Report := Id.run do
         if joinSp nl.obs ≠ "ok" then r := r.mismatch s.idx nl.idx "ok" (joinSp nl.obs)
         if cfgs.contains cfg then
           r := r.addCover "multi-same-parameters"
-          if kvStr cfg "s" = "cache" ∧ kvInt cfg "limit" 0 > 0 then r := r.addCover "multi-cache-shared-option-lru"
+          if kvStr cfg "s" = "cache" ∧ cacheLimitOf cfg > 0 then r := r.addCover "multi-cache-shared-option-lru"
         cfgs := cfg :: cfgs
         r := runSingle r { idx := s.idx, cfg := cfg, lines := rest.map fun (l : Line) => { l with op := l.op.drop 1 } }
   return r
